@@ -89,7 +89,7 @@ def work(args):
                     st['oracle_disagreements'] += 1
             # differential: acceptance set through acc:* options over an all-accepting API, and
             # irrelevant types flipped to level 1 -- delivery must be identical (closure lemma)
-            if dflt == 0 and r.get('status') in ('ok', 'exc'):
+            if dflt == 0 and r.get('status') in ('ok', 'exc') and (tier != 'quick' or idx % 3 == 0):
                 stored = r.get('stored', {})
                 rel = {info.get('tn') or k: info.get('opt', '').split(' ')[0] for k, info in stored.items()}
                 for t, o in G_OPT_NAMES.items(): rel.setdefault(t, o)
@@ -119,7 +119,7 @@ def work(args):
         devs = OPTION_DEVS if tier == 'quick' else OPTION_DEVS + \
             [a + ' ' + b for i, a in enumerate(OPTION_DEVS) for b in OPTION_DEVS[i + 1:]
              if a.split('=')[0] != b.split('=')[0]]
-        for cfg in (base, call):
+        for cfg in ((base,) if tier == 'quick' else (base, call)):
             for od in devs:
                 r = srv.request('convert', nl=nl, opts=od, acc=flatcheck.acc_of(cfg, cfg.get('default', 0)))
                 if r.get('status') == 'optionerror':
